@@ -35,11 +35,13 @@ def model_expect(case, root, layouts, counted):
     model = pp_ast.Model(case["tree"], layouts, root)
     per_cmd = {}
     events = {}
+    traces = {}
     for pname, cmds in case["platforms"].items():
         for i, cmd in enumerate(cmds):
             used, ev = model.run(os.path.join(root, cmd["file"]), cmd.get("defines", ()), abs_dirs(root, cmd), cmd.get("forced", ()))
             per_cmd[(pname, i)] = {p: set(s) for p, s in used.items()}
             events[(pname, i)] = list(ev)
+            traces[(pname, i)] = (list(model.trace), dict(model.entered))
     expected = {}
     for rel in case["tree"]:
         ap = os.path.realpath(os.path.join(root, rel))
@@ -48,6 +50,7 @@ def model_expect(case, root, layouts, counted):
             for ln in used.get(ap, ()):
                 exp[ln].add(pname)
         expected[ap] = {ln: frozenset(s) for ln, s in exp.items()}
+    model_expect.traces = traces
     return expected, events, per_cmd
 
 
@@ -56,6 +59,17 @@ def cbi_config(case, root):
     for pname, cmds in case["platforms"].items():
         cfg[pname] = []
         for cmd in cmds:
+            if case.get("via_argparser"):
+                # the way load_database builds entries: compiler flags -> config.ArgumentParser
+                from dataclasses import asdict
+
+                from codebasin import config
+
+                for pc in config.ArgumentParser("gcc").parse_args(gcc_flags(root, cmd)):
+                    e = asdict(pc)
+                    e["file"] = os.path.join(root, cmd["file"])
+                    cfg[pname].append(e)
+                continue
             cfg[pname].append(
                 observe.entry(
                     os.path.join(root, cmd["file"]),
@@ -109,7 +123,9 @@ def gcc_agrees_with_model(case, root, texts, per_cmd, res, tool="gcc"):
         cmd = case["platforms"][pname][i]
         diag, gused, err = gcc_used_code(case, root, cmd, tool)
         if diag:
-            res.discarded[f"{tool}-diagnosed"] += 1
+            m = re.search(r"(?:warning|error): (.*)", err)
+            why = re.sub(r"[\"'‘’<][^\"'‘’>]*[\"'‘’>]", "X", m.group(1))[:50] if m else "?"
+            res.discarded[f"{tool}-diagnosed: {why}"] += 1
             return False
         for rel in case["tree"]:
             ap = os.path.realpath(os.path.join(root, rel))
@@ -170,6 +186,7 @@ def evaluate(case, res, sig_prefix="", confirm="on-failure", want_events=False):
             res.discarded[f"model-invalid:{e}"[:60]] += 1
             return None, info
         info["events"] = events
+        info["traces"] = model_expect.traces
         info["expected"] = expected
         info["root"] = root
         confirmed = None
@@ -180,7 +197,8 @@ def evaluate(case, res, sig_prefix="", confirm="on-failure", want_events=False):
         vs = []
         feat = ",".join(sorted(features(case)))
         try:
-            state, cb = observe.find(root, cbi_config(case, root))
+            cbroot = os.path.join(root, case["cbroot"]) if case.get("cbroot") else root
+            state, cb = observe.find(cbroot, cbi_config(case, root))
             observed, problems = observe.attribution(state)
             info["state"] = state
             info["codebase"] = cb
@@ -194,6 +212,8 @@ def evaluate(case, res, sig_prefix="", confirm="on-failure", want_events=False):
         for ap, exp in expected.items():
             obs = observed.get(ap)
             rel = os.path.relpath(ap, root)
+            if case.get("cbroot") and not rel.startswith(case["cbroot"] + os.sep):
+                continue  # outside the code base: not reported anywhere
             if obs is None:
                 obs = {}
             if ap in problems:
